@@ -1514,9 +1514,11 @@ func (x *Extractor) inline(f *ssa.Function, args []*RF, parent *FC) *RF {
 		}
 		// a struct value that merely contains slices is a value (its fields are atoms)
 		switch t.Underlying().(type) {
-		case *types.Pointer, *types.Map, *types.Chan, *types.Signature:
+		case *types.Pointer, *types.Map, *types.Chan:
 			ptrRes = true
-		case *types.Slice:
+		case *types.Slice, *types.Signature:
+			// a slice or function value returned by a pure acyclic helper is a value like
+			// any other (a parameter, a fresh copy, a closure keyed by the instance's arguments)
 			sliceRes = true
 		}
 	}
@@ -1635,9 +1637,15 @@ func (fc *FC) gatedReturns(b *ssa.BasicBlock, depth int, leaf func(*ssa.Return) 
 		var tv, fv *RF
 		if fc.Ctx.EdgeLive(b, 0) {
 			tv = fc.gatedReturns(b.Succs[0], depth+1, leaf)
+			if tv == nil {
+				return nil // a live branch whose value could not be computed: no gated value at all
+			}
 		}
 		if fc.Ctx.EdgeLive(b, 1) {
 			fv = fc.gatedReturns(b.Succs[1], depth+1, leaf)
+			if fv == nil {
+				return nil
+			}
 		}
 		switch {
 		case tv == nil && fv == nil:
